@@ -27,7 +27,7 @@ ASSUMPTIONS = [
     "the Dranchuk-Abou-Kassem equation is the published 11-constant form written in vf/refs.py (C1 = A1 + A2/T_r + ...)",
     "root tolerance |Z - Z_EOS(rho_r(Z))| <= 1e-6; continuity |Z(p(1+1e-4)) - Z(p)| <= 5e-4 p_r max(1, 1/Z-slope bound) + 1e-6",
     "z_factor_hallyarbrough takes reduced pressure and reduced temperature (its formula uses t = 1/T_r)",
-    "Hall-Yarbrough is compared (5 %) with the independent root of the published EOS on 1.2 <= T_r <= 3, 0.1 <= p_r <= 24; it must terminate (<= 2e5 traced line events) on the whole rectangle",
+    "Hall-Yarbrough is compared (5 %) with the independent root of the published EOS on 1.2 <= T_r <= 3, 0 < p_r <= 24; it must terminate (<= 2e5 traced line events) on the whole rectangle",
 ]
 LEVEL_TEXT = (
     "Residual of the returned Z in the published equation of state, continuity, low-pressure limit and a "
@@ -193,7 +193,10 @@ def check_case(case) -> Result:
     except Exception as e:  # noqa: BLE001
         res.bad("C06/hall-yarbrough-terminates", f"z_factor_hallyarbrough({pr!r}, {tr!r}) raised {type(e).__name__}: {e}")
         return res
-    common = 1.2 <= tr <= 3.0 and 0.1 <= pr <= 24.0
+    # common range: Hall-Yarbrough's published limits 1.2 <= T_r <= 3, p_r <= 24 inside the DAK rectangle; both routines
+    # tend to the ideal gas as p -> 0, so there is no lower pressure limit (an earlier version stopped at p_r = 0.1 and
+    # so never saw that the routine returned its starting guess below p_r ~ 1e-3: Z = 6.2 at T_r = 1.2, p_r = 1e-4)
+    common = 1.2 <= tr <= 3.0 and 0 < pr <= 24.0
     res.labels["hy_common_range"] = common
     if common:
         roots = refs.dak_roots(tr, pr)
